@@ -36,6 +36,7 @@ def main():
   ap.add_argument('--checks')
   ap.add_argument('--tier', default='quick')
   ap.add_argument('--needs', default='')
+  ap.add_argument('--scratch', action='store_true', help='evaluate against a scratch copy (VERIF_REPO) instead of patching /repo in place')
   a = ap.parse_args()
   dst = os.path.join(VERIF, 'seeded', a.name)
   os.makedirs(dst, exist_ok=True)
@@ -72,16 +73,26 @@ def main():
   # ---- our checks against the change applied to /repo
   checks = (a.checks or a.prop).split(',')
   results = {}
-  rc, out = sh('git -C /repo status --porcelain')
-  if out.strip():
-    print('REFUSING: /repo has local modifications:\n' + out)
-    sys.exit(2)
-  rc, out = sh('git -C /repo apply %s' % patch)
+  env2 = dict(os.environ)
+  scratch = None
+  if a.scratch:
+    scratch = tempfile.mkdtemp(prefix='seedrepo-')
+    sh('rsync -a --exclude .git /repo/ %s/' % scratch)
+    rc, out = sh('git apply --directory=%s --unsafe-paths %s' % (scratch, patch), cwd='/')
+    if rc != 0:
+      rc, out = sh('patch -p1 -d %s < %s' % (scratch, patch))
+    env2['VERIF_REPO'] = scratch
+  else:
+    rc, out = sh('git -C /repo status --porcelain')
+    if out.strip():
+      print('REFUSING: /repo has local modifications:\n' + out)
+      sys.exit(2)
+    rc, out = sh('git -C /repo apply %s' % patch)
   try:
     for c in checks:
       ev = os.path.join(VERIF, 'evidence', '%s.json' % c)
       bak = open(ev).read() if os.path.exists(ev) else None
-      rc, out = sh('/venv/bin/python run.py %s --tier %s' % (c, a.tier), cwd=VERIF, timeout=6000)
+      rc, out = sh('/venv/bin/python run.py %s --tier %s' % (c, a.tier), cwd=VERIF, timeout=6000, env=env2)
       lines = [l for l in out.splitlines() if l.startswith(('VIOLATION', '  detail', 'INCONCLUSIVE', 'KNOWN-FINDING'))]
       results[c] = dict(rc=rc, verdict={0: 'MISSED', 1: 'CAUGHT', 2: 'INCONCLUSIVE'}.get(rc, 'ERROR'), lines=[l[:400] for l in lines[:6]])
       print('check %s (%s): %s' % (c, a.tier, results[c]['verdict']))
@@ -90,10 +101,13 @@ def main():
       if bak is not None:       # evidence must describe the unchanged tree: restore
         open(ev, 'w').write(bak)
   finally:
-    sh('git -C /repo checkout -- .')
+    if scratch:
+      shutil.rmtree(scratch, ignore_errors=True)
+    else:
+      sh('git -C /repo checkout -- .')
   meta['checks'] = results
   meta['tier'] = a.tier
-  meta['ran'].append('git -C /repo apply patch.diff; run.py <check> --tier %s; git -C /repo checkout -- .' % a.tier)
+  meta['ran'].append(('scratch copy of /repo + patch.diff via VERIF_REPO; run.py <check> --tier %s' if a.scratch else 'git -C /repo apply patch.diff; run.py <check> --tier %s; git -C /repo checkout -- .') % a.tier)
   mp = os.path.join(dst, 'meta.json')
   old = {}
   if os.path.exists(mp):
